@@ -106,6 +106,36 @@ def gen_expr(rng, coords, d, poly, deg=5):
     raise AssertionError(h)
 
 
+def subst(e, m):
+    """replace coordinates by expressions"""
+    if e[0] == "v":
+        return m.get((e[1], e[2]), e)
+    if e[0] == "c":
+        return e
+    return [e[0]] + [subst(a, m) if isinstance(a, list) else a for a in e[1:]]
+
+
+def gen_symmetric(rng, all_coords, center, d, poly):
+    """a component with a prescribed symmetry about `center` (dict coordinate -> Fraction) in the coordinates of one
+    variable: EVEN (first derivatives w.r.t. these coordinates vanish there, second derivatives in general do not) or
+    ODD (the value vanishes there, the first derivative in general does not)."""
+    def shifted(c):
+        v = ["v", c[0], c[1]]
+        return v if center[c] == 0 else ["-", v, C(center[c])]
+    ev = {}
+    for c in center:
+        ev[c] = ["cos", shifted(c)] if (not poly and rng.random() < 0.4) else ["^", shifted(c), 2]
+    base = subst(gen_expr(rng, all_coords, max(1, d - 1), poly, 2), ev)
+    if not (coords_in(base) & set(center)):        # make sure the symmetric coordinates occur
+        c = rng.choice(sorted(center))
+        base = ["+", base, ["*", rnd_const(rng), ev[c]]]
+    if rng.random() < 0.6:
+        return "even", base
+    c = rng.choice(sorted(center))
+    odd = shifted(c) if (poly or rng.random() < 0.6) else ["sin", shifted(c)]
+    return "odd", ["*", odd, base]
+
+
 def gen_component(rng, all_coords, focus, d, poly):
     """one output component; `focus` = coordinates of the derivative variables.  Forced shares of the
     special dependence patterns the property text names."""
@@ -141,15 +171,15 @@ NAMES = ["x", "y", "t", "z"]
 
 
 def gen_case(rng, op, thorough=False):
-    nv = rng.choice([1, 1, 2, 2, 3])
+    nv = rng.choice([1, 1, 1, 2, 2, 2, 3, 3, 4])
     names = rng.sample(NAMES, nv)
-    vars_ = [[n, rng.choice([1, 1, 2, 2, 3])] for n in names]
+    vars_ = [[n, rng.choice([1, 1, 1, 2, 2, 2, 3, 3, 4])] for n in names]
     malformed = None
     # derivative variables
     if op == "partial":
         ones = [k for k, (_, d) in enumerate(vars_) if d == 1]
         if ones and rng.random() < 0.8:
-            deriv = [rng.choice(ones) for _ in range(rng.choice([1, 2, 2, 3]))]
+            deriv = [rng.choice(ones) for _ in range(rng.choice([1, 2, 2, 3, 3, 4, 5]))]
         else:
             deriv = [rng.randrange(nv)]
     elif op == "rot":
@@ -165,15 +195,27 @@ def gen_case(rng, op, thorough=False):
     else:
         k = rng.randint(1, nv)
         deriv = rng.sample(range(nv), k)
+        if op in ("grad", "lap", "jac", "nd", "conv") and rng.random() < 0.05:
+            deriv.insert(rng.randrange(len(deriv) + 1), rng.choice(deriv))      # the same variable passed twice
     all_coords = [(n, i) for n, d in vars_ for i in range(d)]
     focus = [(vars_[k][0], i) for k in dict.fromkeys(deriv) for i in range(vars_[k][1])]
     tot = sum(vars_[k][1] for k in deriv)
     poly = rng.random() < 0.35
     d = rng.choice([1, 2, 3, 3, 4, 4, 5] if thorough else [1, 2, 3, 3, 4, 5])
+    if op == "partial" and len(deriv) > 3:
+        d = min(d, 3)                     # keeps the 4th/5th symbolic derivative small
     kinds = []
+    # a set that is special for the program: the coordinates of one derivative variable at a centre of symmetry
+    center = None
+    if rng.random() < 0.3:
+        kc = rng.choice(deriv)
+        center = {(vars_[kc][0], i): Fraction(rng.choice([0, 0, 0, 1, -1, 2, -4]), 4) for i in range(vars_[kc][1])}
 
     def comp():
-        kd, e = gen_component(rng, all_coords, focus, d, poly)
+        if center is not None and rng.random() < 0.7:
+            kd, e = gen_symmetric(rng, all_coords, center, d, poly)
+        else:
+            kd, e = gen_component(rng, all_coords, focus, d, poly)
         kinds.append(kd)
         return e
     extra = []
@@ -202,15 +244,46 @@ def gen_case(rng, op, thorough=False):
             nx = tot + 1
             malformed = "shape"
         extra = [gen_expr(rng, all_coords, rng.choice([0, 0, 1, 2]), True, 2) for _ in range(nx)]
+        if rng.random() < 0.05:
+            extra = [C(0) for _ in extra]                                # normals / field vanish on the whole batch
     # batch
     # every operator works on the trailing axes: no batch axis (a single point), one, two or three batch axes
     batch = rng.choice([[1], [2], [3], [5], [2], [3], [4], [2, 2], [1, 3], [3, 2], [2, 1, 2], [1, 2, 2], []])
     n = math.prod(batch)
-    rows = [[q(Fraction(rng.randint(-16, 16), 8)) for _ in all_coords] for _ in range(n)]
+    rows = [[Fraction(rng.randint(-16, 16), 8) for _ in all_coords] for _ in range(n)]
+    # evaluation points that are special for the program / for programs in general
+    special_rows = []
+    if center is not None:
+        pm = rng.choice(["on-set-all", "on-set-all", "on-set-mixed", "on-set-mixed", "generic"])
+        cset = center
+    else:
+        pm = rng.choice(["generic"] * 15 + ["zeros", "zeros", "origin-all", "identical-rows", "var-zero-all"])
+        kc = rng.choice(deriv)
+        cset = {(vars_[kc][0], i): Fraction(0) for i in range(vars_[kc][1])}
+    if pm in ("on-set-all", "on-set-mixed", "var-zero-all"):
+        chosen = list(range(n)) if pm != "on-set-mixed" else [r for r in range(n) if rng.random() < 0.5] or [0]
+        if pm == "on-set-mixed" and len(chosen) == n and n > 1:
+            chosen = chosen[:-1]
+        for r in chosen:
+            for j, c in enumerate(all_coords):
+                if c in cset:
+                    rows[r][j] = cset[c]
+        special_rows = chosen
+    elif pm == "zeros":
+        rows = [[Fraction(0) if rng.random() < 0.5 else v for v in r] for r in rows]
+    elif pm == "origin-all":
+        rows = [[Fraction(0) for _ in r] for r in rows]
+        special_rows = list(range(n))
+    elif pm == "identical-rows":
+        rows = [list(rows[0]) for _ in rows]
+    rows = [[q(v) for v in r] for r in rows]
     case = dict(op=op, vars=vars_, out=out, deriv=deriv, extra=extra, batch=batch, rows=rows,
-                dtype=rng.choice(["f64", "f64", "f32"]), style=rng.randrange(4), kinds=kinds, poly=poly)
-    if op == "lap" and len(deriv) == 1 and rng.random() < 0.25:
-        case["pregrad"] = True
+                dtype=rng.choice(["f64", "f64", "f32"]), style=rng.randrange(4), kinds=kinds, poly=poly,
+                pointmode=pm, special_rows=special_rows)
+    if op == "lap" and rng.random() < 0.25:
+        case["pregrad"] = True            # the `grad=` keyword (used for one variable, recomputed for several)
+    if op in ("nd", "conv") and rng.random() < 0.3:
+        case["extra_graph"] = True        # normals / field handed over with their graph (e.g. the field is u itself)
     r = rng.random()
     if r < 0.08:
         case["outmode"] = "noncontig"
@@ -392,10 +465,12 @@ def run_impl(case, rows=None):
         dv = [T[case["vars"][k][0]] for k in case["deriv"]]
         f = getattr(ops, IMPL_NAME[op])
         if op in ("nd", "conv"):
-            ex = assemble(torch, [torch_eval(torch, e, X) for e in case["extra"]], batch, dt, 0).detach()
+            ex = assemble(torch, [torch_eval(torch, e, X) for e in case["extra"]], batch, dt, 0)
+            if not case.get("extra_graph"):
+                ex = ex.detach()
             res = f(out, ex, *dv)
         elif op == "lap" and case.get("pregrad"):
-            res = f(out, *dv, grad=ops.grad(out, *dv))
+            res = f(out, *dv, grad=ops.grad(out, dv[0]))
         else:
             res = f(out, *dv)
     except Exception as e:  # noqa
@@ -405,7 +480,22 @@ def run_impl(case, rows=None):
         return dict(shape=list(res.shape), values=None, dtype=str(res.dtype), badbatch=True)
     per = list(res.shape[nb:])
     vals = res.detach().to(torch.float64).reshape(math.prod(batch), -1).tolist()
-    return dict(shape=per, values=vals, dtype=str(res.dtype))
+    info = dict(shape=per, values=vals, dtype=str(res.dtype))
+    if op in ("lap", "grad", "partial") and rows is None:
+        # measured for the evidence: is the whole batch stationary w.r.t. some derivative variable / does u vanish on it?
+        try:
+            with torch.no_grad():
+                info["out_zero"] = bool(not torch.any(out))
+            cnt = 0
+            if out.requires_grad:
+                for v in dv:
+                    g = torch.autograd.grad(out.sum(), v, allow_unused=True, retain_graph=True)[0]
+                    if g is not None and not torch.any(g):
+                        cnt += 1
+            info["stationary"] = cnt
+        except Exception:  # noqa
+            pass
+    return info
 
 
 # ------------------------------------------------------------------------------------------
@@ -470,7 +560,7 @@ def run_oracle(case):
         m = len(case["out"])
         nn = len(ys)
         res, shape = [sum(d(out[i * nn + j], ys[j]) for j in range(nn)) for i in range(m)], [m]
-    f = sp.lambdify([S[c] for c in coords], res, modules="math", cse=True)
+    f = sp.lambdify([S[c] for c in coords], res, modules="math", cse=False)
     vals = []
     for r in case["rows"]:
         v = f(*[float(Fraction(x)) for x in r])
@@ -622,7 +712,8 @@ def single_row_check(rep, case, impl):
     if "error" in impl or impl.get("badbatch") or len(case["rows"]) < 2:
         return
     n = len(case["rows"])
-    picks = sorted({0, n - 1, (case["style"] * 7 + 3) % n})[:2]
+    sp = [r for r in case.get("special_rows", []) if r < n]
+    picks = (sp[:2] + [r for r in sorted({0, n - 1, (case["style"] * 7 + 3) % n}) if r not in sp])[:3 if sp else 2]
     u = U[case["dtype"]]
     for r in picks:
         alone = run_impl(case, rows=[case["rows"][r]])
@@ -650,7 +741,7 @@ def nontrivial(case):
 
 def gen_cases(ctx):
     rng = ctx.rng
-    per_op = ctx.scale(150, 1600)
+    per_op = ctx.scale(130, 1600)
     cases = [c for c in CORPUS]
     for op in OPS:
         for _ in range(per_op):
@@ -714,6 +805,18 @@ CORPUS += [
     dict(op="rot", vars=[["x", 3]], out=[["^", V("x", 1), 2], ["*", V("x", 2), V("x", 0)], ["*", V("x", 0), V("x", 1)]], deriv=[0], extra=[],
          batch=[2, 2], rows=[[q(Fraction(a, 2)), q(Fraction(b, 4)), q(Fraction(a + b, 8))] for a in (1, 3) for b in (1, 5)], dtype="f32", style=0,
          kinds=["general"] * 3, poly=True),
+    # a whole batch at stationary points: the gradient vanishes, the laplacian does not (u = x0^2 + 3 x1^2 at the origin: 8)
+    dict(op="lap", vars=[["x", 2]], out=[["+", ["^", V("x", 0), 2], ["*", ["c", "3"], ["^", V("x", 1), 2]]]], deriv=[0], extra=[], batch=[1],
+         rows=[["0", "0"]], dtype="f32", style=0, kinds=["even"], poly=True, pointmode="on-set-all", special_rows=[0]),
+    # batch on the symmetry plane x = 0 of u = cos(x) t^2: u_xx = -t^2; also through the grad= keyword; mixed batch for row independence
+    dict(op="lap", vars=[["x", 1], ["t", 1]], out=[["*", ["cos", V("x", 0)], ["^", V("t", 0), 2]]], deriv=[0, 1], extra=[], batch=[3],
+         rows=[["0", "1/2"], ["0", "-3/4"], ["0", "5/4"]], dtype="f64", style=0, kinds=["even"], poly=False, pointmode="on-set-all",
+         special_rows=[0, 1, 2]),
+    dict(op="lap", vars=[["x", 1], ["t", 1]], out=[["*", ["cos", V("x", 0)], ["^", V("t", 0), 2]]], deriv=[0], extra=[], batch=[2],
+         rows=[["0", "1/2"], ["0", "-3/4"]], dtype="f64", style=0, kinds=["even"], poly=False, pointmode="on-set-all",
+         special_rows=[0, 1], pregrad=True),
+    dict(op="lap", vars=[["x", 2]], out=[["exp", ["neg", ["+", ["^", V("x", 0), 2], ["^", V("x", 1), 2]]]]], deriv=[0], extra=[], batch=[2, 1],
+         rows=[["0", "0"], ["1/2", "-1/4"]], dtype="f64", style=0, kinds=["even"], poly=False, pointmode="on-set-mixed", special_rows=[0]),
     # a single point without batch axis
     dict(op="jac", vars=[["x", 2]], out=[["*", V("x", 0), V("x", 1)], ["sin", V("x", 0)]], deriv=[0], extra=[], batch=[],
          rows=[["3/2", "-5/4"]], dtype="f64", style=0, kinds=["general"] * 2, poly=False),
@@ -724,7 +827,8 @@ def model_requests(case, rng_choice):
     reqs = [("row", "flt")]
     if case["poly"] and all(is_poly(e) for e in flat_out(case) + case["extra"]):
         reqs.append(("row", "rat"))
-    if case["op"] in BATCH_FORM and not case.get("malformed") and rng_choice < 0.4 and len(case["rows"]) <= 4:
+    if (case["op"] in BATCH_FORM and not case.get("malformed") and rng_choice < 0.4 and len(case["rows"]) <= 4
+            and len(case["deriv"]) <= 3):
         reqs.append(("batch", "rat" if len(reqs) == 2 else "flt"))
     return reqs
 
@@ -734,7 +838,9 @@ def run(ctx, rep, cases=None, use_driver=True):
                 "named inputs of dimension 1-3, forced shares of components that are constant / independent of / affine in / "
                 "bilinear / linear in the derivative variables; every operator, every admissible variable subset and order, "
                 "0-3 batch axes for every operator, float32 and float64, four ways of slicing/assembling the tensors; "
-                "points are dyadic k/8 in [-2,2]. non-trivial = some output depends on a derivative variable, depth >= 2, >= 2 rows; "
+                "points are dyadic k/8 in [-2,2]; 30% of the programs are built even/odd about a centre in one derivative variable and "
+                "evaluated with all / some / no rows on that set (stationary points, zeros of u), further batches with zero "
+                "coordinates, all rows at the origin, identical rows; partial up to order 5; `grad=` keyword; non-trivial = some output depends on a derivative variable, depth >= 2, >= 2 rows; "
                 "distinct = distinct (operator, program, variables, batch, points)")
     cases = cases if cases is not None else gen_cases(ctx)
     impls, oracles, lines, owners = [], [], [], []
@@ -766,6 +872,23 @@ def run(ctx, rep, cases=None, use_driver=True):
             rep.count("model-channel:%s-%s" % k)
         if case.get("pregrad"):
             rep.count("laplacian-with-precomputed-grad")
+        rep.count("points:" + case.get("pointmode", "corpus"))
+        rep.count("nvars-total:%d" % len(case["vars"]))
+        rep.count("max-dim:%d" % max(d for _, d in case["vars"]))
+        if len(set(case["deriv"])) < len(case["deriv"]) and op != "partial":
+            rep.count("same-variable-passed-twice")
+        if op == "partial":
+            rep.count("partial-order:%d" % len(case["deriv"]))
+        if case.get("extra_graph"):
+            rep.count("normals/field-with-graph")
+        if case["extra"] and all(e == ["c", "0"] for e in case["extra"]):
+            rep.count("normals/field-zero")
+        if impl.get("stationary") and orc is not None and any(abs(v) > 1e-9 for r in orc[1] for v in r):
+            rep.count(op + ":whole-batch-stationary-in-a-variable-but-result-nonzero")
+        if impl.get("out_zero") and orc is not None and any(abs(v) > 1e-9 for r in orc[1] for v in r):
+            rep.count(op + ":u-vanishes-on-whole-batch-but-result-nonzero")
+        if case.get("special_rows") and 0 < len(case["special_rows"]) < len(case["rows"]):
+            rep.count("mixed-batch(special+generic rows)")
         rep.count("output:" + case.get("outmode", "std"))
         rep.count("inputs:" + case.get("inmode", "harness"))
         if case.get("degenerate"):
